@@ -167,8 +167,9 @@ func (ps *Parser) createItemForElement(element *html.Node) ThingItem {
 }
 
 func (ps *Parser) isItemScope(element *html.Node) bool {
-	return dom.HasAttribute(element, "itemscope") &&
-		dom.HasAttribute(element, "itemtype")
+	// An item starts with "itemscope", with or without "itemtype": the properties
+	// inside an untyped item belong to that item, not to the item around it.
+	return dom.HasAttribute(element, "itemscope")
 }
 
 func (ps *Parser) getItemProp(element *html.Node) []string {
